@@ -371,6 +371,286 @@ theorem position_arc_segment_float32 (p0 p1 : Pos Float32) (d d' d0 d1 : Float) 
     rw [e] at h; exact h
   exact ⟨le_trans hx (by linarith [key _ hcx (abs_nonneg _)]), le_trans hy (by linarith [key _ hcy (abs_nonneg _)])⟩
 
+/-! ## (1) one booked segment length -/
+
+theorem not_nan_of_finite32 (x : Float32) (h : x.isFinite = true) : Scalar.isNaN x = false := by
+  have h' : x.toModel.unpack.isFinite = true := h
+  show x.toModel.unpack.isNaN = false
+  cases hx : x.toModel.unpack <;> rw [hx] at h' <;> first | rfl | cases h'
+
+/-- **the `f32` sum of squares**, five roundings over ℚ (`u = 2⁻²⁴`, underflow unit `2⁻¹⁵⁰` for the two squares):
+`dx = fl(X)`, `dy = fl(Y)`, `sx = fl(dx²)`, `sy = fl(dy²)`, `s = fl(sx + sy)`. For `E = X² + Y² ≥ 2⁻¹⁰⁰`:
+`E (1 − 5u) ≤ s ≤ E (1 + 5u)` (`(1 + u)⁴` and the underflow of the smaller square). -/
+theorem sumsq_chain (X Y dx dy sx sy s δ1 δ2 δ3 : ℚ)
+    (hdx : dx = X * (1 + δ1)) (h1 : |δ1| ≤ (2 : ℚ) ^ (-24 : Int))
+    (hdy : dy = Y * (1 + δ2)) (h2 : |δ2| ≤ (2 : ℚ) ^ (-24 : Int))
+    (hsx : |sx - dx * dx| ≤ (2 : ℚ) ^ (-24 : Int) * |dx * dx| + (2 : ℚ) ^ (-150 : Int))
+    (hsy : |sy - dy * dy| ≤ (2 : ℚ) ^ (-24 : Int) * |dy * dy| + (2 : ℚ) ^ (-150 : Int))
+    (hs : s = (sx + sy) * (1 + δ3)) (h3 : |δ3| ≤ (2 : ℚ) ^ (-24 : Int))
+    (hE : (2 : ℚ) ^ (-100 : Int) ≤ X * X + Y * Y) :
+    (X * X + Y * Y) * (1 - 5 * (2 : ℚ) ^ (-24 : Int)) ≤ s ∧ s ≤ (X * X + Y * Y) * (1 + 5 * (2 : ℚ) ^ (-24 : Int)) := by
+  have hu0 : (0 : ℚ) < (2 : ℚ) ^ (-24 : Int) := two_zpow_pos _
+  have hu1 : 1000000 * (2 : ℚ) ^ (-24 : Int) ≤ 1 := by norm_num
+  have hηE : 4 * (2 : ℚ) ^ (-150 : Int) ≤ (X * X + Y * Y) * ((2 : ℚ) ^ (-24 : Int) * (2 : ℚ) ^ (-24 : Int)) := by
+    have : 4 * (2 : ℚ) ^ (-150 : Int) = (2 : ℚ) ^ (-100 : Int) * ((2 : ℚ) ^ (-24 : Int) * (2 : ℚ) ^ (-24 : Int)) := by norm_num
+    rw [this]; exact mul_le_mul_of_nonneg_right hE (by positivity)
+  have c1 : ((1 + (2 : ℚ) ^ (-24 : Int)) ^ 3 + (2 : ℚ) ^ (-24 : Int) * (2 : ℚ) ^ (-24 : Int) / 2) * (1 + (2 : ℚ) ^ (-24 : Int)) ≤
+      1 + 5 * (2 : ℚ) ^ (-24 : Int) := by norm_num
+  have c2 : 1 - 5 * (2 : ℚ) ^ (-24 : Int) ≤
+      ((1 - (2 : ℚ) ^ (-24 : Int)) ^ 3 - (2 : ℚ) ^ (-24 : Int) * (2 : ℚ) ^ (-24 : Int) / 2) * (1 - (2 : ℚ) ^ (-24 : Int)) := by
+    norm_num
+  have c3 : 0 ≤ (1 - (2 : ℚ) ^ (-24 : Int)) ^ 3 - (2 : ℚ) ^ (-24 : Int) * (2 : ℚ) ^ (-24 : Int) / 2 := by norm_num
+  have hη0 : (0 : ℚ) < (2 : ℚ) ^ (-150 : Int) := two_zpow_pos _
+  generalize (2 : ℚ) ^ (-24 : Int) = u at *
+  generalize (2 : ℚ) ^ (-150 : Int) = η at *
+  have hu' : u ≤ 1 / 1000000 := by linarith
+  -- one square
+  have sq : ∀ (Z dz sz δ : ℚ), dz = Z * (1 + δ) → |δ| ≤ u → |sz - dz * dz| ≤ u * |dz * dz| + η →
+      Z * Z * (1 - u) ^ 3 - η ≤ sz ∧ sz ≤ Z * Z * (1 + u) ^ 3 + η := by
+    intro Z dz sz δ hdz hδ hsz
+    obtain ⟨d1, d2⟩ := abs_le.mp hδ
+    have hZ : 0 ≤ Z * Z := mul_self_nonneg Z
+    have e : dz * dz = Z * Z * (1 + δ) ^ 2 := by rw [hdz]; ring
+    have p1 : (1 + δ) ^ 2 ≤ (1 + u) ^ 2 := pow_le_pow_left₀ (by linarith) (by linarith) 2
+    have p2 : (1 - u) ^ 2 ≤ (1 + δ) ^ 2 := pow_le_pow_left₀ (by linarith) (by linarith) 2
+    have q1 : dz * dz ≤ Z * Z * (1 + u) ^ 2 := by rw [e]; exact mul_le_mul_of_nonneg_left p1 hZ
+    have q2 : Z * Z * (1 - u) ^ 2 ≤ dz * dz := by rw [e]; exact mul_le_mul_of_nonneg_left p2 hZ
+    rw [abs_mul_self] at hsz
+    obtain ⟨r1, r2⟩ := abs_le.mp hsz
+    have m1 : dz * dz * (1 + u) ≤ Z * Z * (1 + u) ^ 2 * (1 + u) := mul_le_mul_of_nonneg_right q1 (by linarith)
+    have m2 : Z * Z * (1 - u) ^ 2 * (1 - u) ≤ dz * dz * (1 - u) := mul_le_mul_of_nonneg_right q2 (by linarith)
+    constructor
+    · have : Z * Z * (1 - u) ^ 3 = Z * Z * (1 - u) ^ 2 * (1 - u) := by ring
+      rw [this]; linarith
+    · have : Z * Z * (1 + u) ^ 3 = Z * Z * (1 + u) ^ 2 * (1 + u) := by ring
+      rw [this]; linarith
+  obtain ⟨x1, x2⟩ := sq X dx sx δ1 hdx h1 hsx
+  obtain ⟨y1, y2⟩ := sq Y dy sy δ2 hdy h2 hsy
+  have hE0 : 0 ≤ X * X + Y * Y := add_nonneg (mul_self_nonneg X) (mul_self_nonneg Y)
+  generalize X * X = A at *
+  generalize Y * Y = B at *
+  obtain ⟨d1, d2⟩ := abs_le.mp h3
+  have S1 : (A + B) * ((1 - u) ^ 3 - u * u / 2) ≤ sx + sy := by
+    have : (A + B) * ((1 - u) ^ 3 - u * u / 2) = A * (1 - u) ^ 3 + B * (1 - u) ^ 3 - (A + B) * (u * u) / 2 := by ring
+    rw [this]; linarith
+  have S2 : sx + sy ≤ (A + B) * ((1 + u) ^ 3 + u * u / 2) := by
+    have : (A + B) * ((1 + u) ^ 3 + u * u / 2) = A * (1 + u) ^ 3 + B * (1 + u) ^ 3 + (A + B) * (u * u) / 2 := by ring
+    rw [this]; linarith
+  have S0 : 0 ≤ sx + sy := le_trans (mul_nonneg hE0 c3) S1
+  rw [hs]
+  constructor
+  · calc (A + B) * (1 - 5 * u) ≤ (A + B) * (((1 - u) ^ 3 - u * u / 2) * (1 - u)) := mul_le_mul_of_nonneg_left c2 hE0
+      _ = (A + B) * ((1 - u) ^ 3 - u * u / 2) * (1 - u) := by ring
+      _ ≤ (sx + sy) * (1 - u) := mul_le_mul_of_nonneg_right S1 (by linarith)
+      _ ≤ (sx + sy) * (1 + δ3) := mul_le_mul_of_nonneg_left (by linarith) S0
+  · calc (sx + sy) * (1 + δ3) ≤ (sx + sy) * (1 + u) := mul_le_mul_of_nonneg_left (by linarith) S0
+      _ ≤ (A + B) * ((1 + u) ^ 3 + u * u / 2) * (1 + u) := mul_le_mul_of_nonneg_right S2 (by linarith)
+      _ = (A + B) * (((1 + u) ^ 3 + u * u / 2) * (1 + u)) := by ring
+      _ ≤ (A + B) * (1 + 5 * u) := mul_le_mul_of_nonneg_left c1 hE0
+
+/-- **C16 / C19 on IEEE floats: the length the code books for one segment.** `a`, `b` two `f32` points, `ell` the `f64`
+`f64::from((b − a).length())` that `calculate_length` adds to its running sum; nine roundings: `⊖`, `⊖`, `⊗`, `⊗`, `⊕` in `f32`,
+`f64::from` (exact), `sqrt` in `f64`, `as f32`, `f64::from` (exact). Hypotheses: no overflow (the `f32` sum of squares, the
+`f64` root and the `f32` length are finite — automatic for points bounded by `2¹⁹`, whose sum of squares is below `2⁴¹`), and
+the exact squared length `E = Δx² + Δy²` is at least `2⁻¹⁰⁰` (the segment is not shorter than `2⁻⁵⁰` px). Then
+`toRat ell = ℓ ≥ 0` is the value of the `f32` length and `E (1 − 3·2⁻²²) ≤ ℓ² ≤ E (1 + 3·2⁻²²)`: the booked length is the
+exact length up to a relative error `< 1.5·2⁻²² + 2⁻⁴⁰`. The subtraction is exact when both coordinates are integers
+below `2²⁴` (or within a factor two of each other, Sterbenz) but nothing is gained in the constant: the two squarings, the
+sum and the final `as f32` remain. The floor on `E` cannot be dropped: `segment_length_underflow_example`. -/
+theorem segment_length_err_float32 (a b : Pos Float32)
+    (hs : ((b - a).x * (b - a).x + (b - a).y * (b - a).y).isFinite = true)
+    (hy : (Scalar.sqrt (Cvt.up ((b - a).x * (b - a).x + (b - a).y * (b - a).y) : Float) : Float).isFinite = true)
+    (hl : (Pos.length Float (b - a)).isFinite = true)
+    (hE : (2 : ℚ) ^ (-100 : Int) ≤ (toRat32 b.x - toRat32 a.x) ^ 2 + (toRat32 b.y - toRat32 a.y) ^ 2) :
+    toRat (Cvt.up (Pos.length Float (b - a)) : Float) = toRat32 (Pos.length Float (b - a)) ∧
+    0 ≤ toRat32 (Pos.length Float (b - a)) ∧
+    ((toRat32 b.x - toRat32 a.x) ^ 2 + (toRat32 b.y - toRat32 a.y) ^ 2) * (1 - 3 * (2 : ℚ) ^ (-22 : Int)) ≤
+      toRat32 (Pos.length Float (b - a)) ^ 2 ∧
+    toRat32 (Pos.length Float (b - a)) ^ 2 ≤
+      ((toRat32 b.x - toRat32 a.x) ^ 2 + (toRat32 b.y - toRat32 a.y) ^ 2) * (1 + 3 * (2 : ℚ) ^ (-22 : Int)) := by
+  refine ⟨toRat_up _ hl, ?_⟩
+  have ex : (b - a).x = b.x - a.x := rfl
+  have ey : (b - a).y = b.y - a.y := rfl
+  obtain ⟨fsx, fsy⟩ := finite_of_add_finite32 _ _ hs
+  obtain ⟨fdx, _⟩ := finite_of_mul_finite32 _ _ fsx
+  obtain ⟨fdy, _⟩ := finite_of_mul_finite32 _ _ fsy
+  have fdx' : (b.x - a.x).isFinite = true := fdx
+  have fdy' : (b.y - a.y).isFinite = true := fdy
+  obtain ⟨fbx, fax⟩ := finite_of_sub_finite32 _ _ fdx'
+  obtain ⟨fby, fay⟩ := finite_of_sub_finite32 _ _ fdy'
+  obtain ⟨δ1, h1, hdx⟩ := sub_err_float32 b.x a.x fbx fax fdx'
+  obtain ⟨δ2, h2, hdy⟩ := sub_err_float32 b.y a.y fby fay fdy'
+  have hsx := mul_err_abs_float32 _ _ fdx fdx fsx
+  have hsy := mul_err_abs_float32 _ _ fdy fdy fsy
+  obtain ⟨δ3, h3, hs'⟩ := add_err_float32 _ _ fsx fsy hs
+  rw [pow_two, pow_two] at hE ⊢
+  rw [ex] at hsx; rw [ey] at hsy
+  obtain ⟨lo, hi⟩ := sumsq_chain _ _ _ _ _ _ _ δ1 δ2 δ3 hdx h1 hdy h2 hsx hsy hs' h3 hE
+  have hs0 : Scalar.le (0 : Float32) ((b - a).x * (b - a).x + (b - a).y * (b - a).y) = true :=
+    C16.sumsq_nonneg (b - a) (not_nan_of_finite32 _ fdx) (not_nan_of_finite32 _ fdy)
+  have hE0 : 0 ≤ (toRat32 b.x - toRat32 a.x) * (toRat32 b.x - toRat32 a.x) +
+      (toRat32 b.y - toRat32 a.y) * (toRat32 b.y - toRat32 a.y) :=
+    add_nonneg (mul_self_nonneg _) (mul_self_nonneg _)
+  have hn : (2 : ℚ) ^ (-250 : Int) ≤ toRat32 ((b - a).x * (b - a).x + (b - a).y * (b - a).y) := by
+    refine le_trans ?_ lo
+    have c : (0 : ℚ) ≤ 1 - 5 * (2 : ℚ) ^ (-24 : Int) := by norm_num
+    have c' : (2 : ℚ) ^ (-250 : Int) ≤ (2 : ℚ) ^ (-100 : Int) * (1 - 5 * (2 : ℚ) ^ (-24 : Int)) := by norm_num
+    exact le_trans c' (mul_le_mul_of_nonneg_right hE c)
+  obtain ⟨hl0, hlo, hhi⟩ := C16.sqrt_len_err _ hs hs0 hy hl hn
+  rw [← C16.length_eq] at hl0 hlo hhi
+  refine ⟨hl0, ?_, ?_⟩
+  · have c : (1 - 3 * (2 : ℚ) ^ (-22 : Int)) * (1 + (2 : ℚ) ^ (-22 : Int)) ≤ 1 - 5 * (2 : ℚ) ^ (-24 : Int) := by norm_num
+    have c0 : (0 : ℚ) < 1 + (2 : ℚ) ^ (-22 : Int) := by norm_num
+    have := mul_le_mul_of_nonneg_left c hE0
+    refine le_of_mul_le_mul_right ?_ c0
+    calc _ = ((toRat32 b.x - toRat32 a.x) * (toRat32 b.x - toRat32 a.x) +
+          (toRat32 b.y - toRat32 a.y) * (toRat32 b.y - toRat32 a.y)) *
+          ((1 - 3 * (2 : ℚ) ^ (-22 : Int)) * (1 + (2 : ℚ) ^ (-22 : Int))) := by ring
+      _ ≤ _ := this
+      _ ≤ _ := lo
+      _ ≤ _ := hhi
+  · have c : 1 + 5 * (2 : ℚ) ^ (-24 : Int) ≤ (1 + 3 * (2 : ℚ) ^ (-22 : Int)) * (1 - (2 : ℚ) ^ (-22 : Int)) := by norm_num
+    have c0 : (0 : ℚ) < 1 - (2 : ℚ) ^ (-22 : Int) := by norm_num
+    have := mul_le_mul_of_nonneg_left c hE0
+    refine le_of_mul_le_mul_right ?_ c0
+    calc _ ≤ _ := hlo
+      _ ≤ _ := hi
+      _ ≤ _ := this
+      _ = _ := by ring
+
+/-! ## (2) the natural total length -/
+
+/-- the `f32` segment lengths `(next − curr).length()` of a path (`C16.segLens` before `f64::from`). -/
+def segLens32 : List (Pos Float32) → List Float32
+  | [] => []
+  | [_] => []
+  | a :: b :: t => Pos.length Float (b - a) :: segLens32 (b :: t)
+
+/-- the exact sum of the values of a list of `f32`s. -/
+def sumQ (l : List Float32) : ℚ := (l.map toRat32).sum
+
+theorem mem_segLens32 {ℓ : Float32} {path : List (Pos Float32)} (h : ℓ ∈ segLens32 path) :
+    ∃ a b, a ∈ path ∧ b ∈ path ∧ ℓ = Pos.length Float (b - a) := by
+  induction path with
+  | nil => cases h
+  | cons a t ih =>
+    cases t with
+    | nil => cases h
+    | cons b t' =>
+      have h' : ℓ ∈ Pos.length Float (b - a) :: segLens32 (b :: t') := h
+      rcases List.mem_cons.mp h' with rfl | h''
+      · exact ⟨a, b, by simp, by simp, rfl⟩
+      · obtain ⟨a', b', ha', hb', hs⟩ := ih h''
+        exact ⟨a', b', List.mem_cons_of_mem _ ha', List.mem_cons_of_mem _ hb', hs⟩
+
+/-- a finite `f32` segment length has a non-negative value, and `f64::from` keeps it. -/
+theorem seglen_nonneg (v : Pos Float32) (h : (Pos.length Float v).isFinite = true) :
+    0 ≤ toRat32 (Pos.length Float v) := by
+  have hf := up_finite _ h
+  rw [← toRat_up _ h]
+  rcases C16.len_nonneg_float v with h0 | hn
+  · exact toRat_nonneg _ h0 hf
+  · rw [not_nan_of_finite _ hf] at hn; cases hn
+
+/-- one step of the running sum over ℚ: `P − 1` bounds the relative error so far, `P (1 + u) − 1` after one more rounded
+addition of a non-negative term. -/
+theorem runsum_step (T G S δ u P : ℚ) (hG : 0 ≤ G) (hS : 0 ≤ S) (hu : 0 ≤ u) (hP : 1 ≤ P) (hδ : |δ| ≤ u)
+    (ih : |T - (G * (1 + δ) + S)| ≤ (P - 1) * (G * (1 + δ) + S)) :
+    |T - (G + S)| ≤ (P * (1 + u) - 1) * (G + S) := by
+  obtain ⟨d1, d2⟩ := abs_le.mp hδ
+  obtain ⟨i1, i2⟩ := abs_le.mp ih
+  have a1 := mul_nonneg (mul_nonneg (sub_nonneg.mpr hP) hG) (sub_nonneg.mpr d2)
+  have a2 := mul_nonneg (mul_nonneg (le_trans zero_le_one hP) hu) hS
+  have a3 := mul_nonneg hG (sub_nonneg.mpr d2)
+  have a4 : 0 ≤ G * (δ + u) := mul_nonneg hG (by linarith)
+  have a5 := mul_nonneg (mul_nonneg (sub_nonneg.mpr hP) hG) (by linarith : (0 : ℚ) ≤ δ + u)
+  have a6 := mul_nonneg (mul_nonneg (sub_nonneg.mpr hP) hG) hu
+  have a7 := mul_nonneg (sub_nonneg.mpr hP) hS
+  rw [abs_le]
+  constructor <;> nlinarith
+
+theorem cumLens_two (c : Float) (a b : Pos Float32) (t : List (Pos Float32)) :
+    (cumLens c (a :: b :: t)).2 = (cumLens (c + Cvt.up (Pos.length Float (b - a))) (b :: t)).2 := rfl
+
+/-- a finite total has a finite start (every partial sum is then finite). -/
+theorem cumLens_start_finite (path : List (Pos Float32)) :
+    ∀ c : Float, (cumLens c path).2.isFinite = true → c.isFinite = true := by
+  induction path with
+  | nil => intro c h; exact h
+  | cons a t ih =>
+    cases t with
+    | nil => intro c h; exact h
+    | cons b t' =>
+      intro c h
+      rw [cumLens_two] at h
+      exact (finite_of_add_finite _ _ (ih _ h)).1
+
+theorem sumQ_nonneg (l : List Float32) (h : ∀ ℓ ∈ l, 0 ≤ toRat32 ℓ) : 0 ≤ sumQ l := by
+  unfold sumQ
+  induction l with
+  | nil => simp
+  | cons x t ih =>
+    rw [List.map_cons, List.sum_cons]
+    exact add_nonneg (h x (by simp)) (ih fun ℓ hℓ => h ℓ (List.mem_cons_of_mem _ hℓ))
+
+/-- **C16 on IEEE floats: "without a requested length the distance is the polyline's own length", up to explicit
+rounding.** `(cumLens c path).2` is the natural total `calculate_length` reaches (`c` = `optimized_len ≥ 0`, `0` unless the
+osu!-Catmull simplification removed points), a left-to-right `f64` running sum of the `n = path.length − 1` booked lengths
+`ℓᵢ` (`segLens32 path`, finite `f32`s, each the exact chord up to `segment_length_err_float32`). If the total is finite,
+`|total − (c + Σ ℓᵢ)| ≤ ((1 + 2⁻⁵³)ⁿ − 1) (c + Σ ℓᵢ)` — only the `n` additions round, `f64::from` is exact. -/
+theorem natural_length_err_float (path : List (Pos Float32)) :
+    ∀ c : Float, (cumLens c path).2.isFinite = true → (∀ ℓ ∈ segLens32 path, ℓ.isFinite = true) → 0 ≤ toRat c →
+    |toRat (cumLens c path).2 - (toRat c + sumQ (segLens32 path))| ≤
+      ((1 + (2 : ℚ) ^ (-53 : Int)) ^ (path.length - 1) - 1) * (toRat c + sumQ (segLens32 path)) := by
+  induction path with
+  | nil => intro c _ _ _; simp [cumLens, segLens32, sumQ]
+  | cons a t ih =>
+    cases t with
+    | nil => intro c _ _ _; simp [cumLens, segLens32, sumQ]
+    | cons b t' =>
+      intro c hfin hseg hc
+      rw [cumLens_two] at hfin ⊢
+      have hℓ : (Pos.length Float (b - a)).isFinite = true := hseg _ (by simp [segLens32])
+      have hseg' : ∀ ℓ ∈ segLens32 (b :: t'), ℓ.isFinite = true := fun ℓ h => hseg ℓ (by simp [segLens32, h])
+      have fc' := cumLens_start_finite _ _ hfin
+      obtain ⟨fc, fu⟩ := finite_of_add_finite _ _ fc'
+      obtain ⟨δ, hδ, hv⟩ := add_err_float c _ fc fu fc'
+      rw [toRat_up _ hℓ] at hv
+      have hℓ0 := seglen_nonneg _ hℓ
+      have hG : 0 ≤ toRat c + toRat32 (Pos.length Float (b - a)) := by linarith
+      have hc' : 0 ≤ toRat (c + Cvt.up (Pos.length Float (b - a))) := by
+        rw [hv]
+        have u1 : (2 : ℚ) ^ (-53 : Int) ≤ 1 := by norm_num
+        exact mul_nonneg hG (by linarith [(abs_le.mp hδ).1])
+      have hS : 0 ≤ sumQ (segLens32 (b :: t')) :=
+        sumQ_nonneg _ fun ℓ h => by
+          obtain ⟨a', b', _, _, rfl⟩ := mem_segLens32 h
+          exact seglen_nonneg _ (hseg' _ h)
+      have := ih _ hfin hseg' hc'
+      rw [hv] at this
+      have hP : (1 : ℚ) ≤ (1 + (2 : ℚ) ^ (-53 : Int)) ^ ((b :: t').length - 1) :=
+        one_le_pow₀ (by linarith [u53_pos])
+      have step := runsum_step _ _ _ δ _ _ hG hS u53_pos.le hP hδ this
+      have e1 : sumQ (segLens32 (a :: b :: t')) = toRat32 (Pos.length Float (b - a)) + sumQ (segLens32 (b :: t')) := by
+        simp [segLens32, sumQ]
+      have e2 : (a :: b :: t').length - 1 = ((b :: t').length - 1) + 1 := by simp
+      rw [e1, e2, pow_succ, ← add_assoc]
+      exact step
+
+/-- the same with a linear constant: `n = path.length − 1 ≤ 2⁵³` segments ⟹ relative error `≤ 2n · 2⁻⁵³`. -/
+theorem natural_length_err_float_linear (path : List (Pos Float32)) (c : Float)
+    (hfin : (cumLens c path).2.isFinite = true) (hseg : ∀ ℓ ∈ segLens32 path, ℓ.isFinite = true) (hc : 0 ≤ toRat c)
+    (hn : ((path.length - 1 : Nat) : ℚ) * (2 : ℚ) ^ (-53 : Int) ≤ 1) :
+    |toRat (cumLens c path).2 - (toRat c + sumQ (segLens32 path))| ≤
+      2 * ((path.length - 1 : Nat) : ℚ) * (2 : ℚ) ^ (-53 : Int) * (toRat c + sumQ (segLens32 path)) := by
+  refine le_trans (natural_length_err_float path c hfin hseg hc) ?_
+  have hS : 0 ≤ toRat c + sumQ (segLens32 path) :=
+    add_nonneg hc (sumQ_nonneg _ fun ℓ h => by
+      obtain ⟨a', b', _, _, rfl⟩ := mem_segLens32 h
+      exact seglen_nonneg _ (hseg _ h))
+  have := one_add_pow_le _ u53_pos.le (path.length - 1) hn
+  exact mul_le_mul_of_nonneg_right (by linarith) hS
+
 /-! ## non-vacuity: the demo segment `(100, 200) → (107, 224)` of Props/C16IeeeCut.lean, evaluated by the kernel -/
 
 section Examples
